@@ -1035,9 +1035,83 @@ void vfa_free(void *p) {
 }
 #endif
 
+/* ============================================ table-coverage hook (H3_VERIF_HOOKS)
+ * The library (built with -DH3_VERIF_HOOKS) reports every look-up into its topology tables: (table, row, col).
+ * The kit keeps one bit per table cell (which cells did this workload reach — the reach of the check over the tables that
+ * the properties' anchors name) and checks row/col against the table's dimensions: an index outside them is an
+ * intra-object overflow that red-zone sanitizers cannot see (digit 7 into a [7][7] table lands in the next row). */
+#ifdef H3_VERIF_HOOKS
+#include "h3VerifHooks.h"
+static const struct {
+    const char *name;
+    int rows, cols;
+} VT[H3VT_COUNT] = {
+    [H3VT_BASE_CELL_NEIGHBORS] = {"baseCellNeighbors@h3NeighborRotations", 122, 7},
+    [H3VT_NEW_DIGIT_II] = {"NEW_DIGIT_II@h3NeighborRotations", 7, 7},
+    [H3VT_NEW_DIGIT_III] = {"NEW_DIGIT_III@h3NeighborRotations", 7, 7},
+    [H3VT_LOCALIJ_BC_ROTS] = {"baseCellNeighbor60CCWRots@cellToLocalIjk", 122, 7},
+    [H3VT_LOCALIJ_BC_ROTS_INV] = {"baseCellNeighbor60CCWRots@localIjkToCell", 122, 7},
+    [H3VT_FAILED_DIRECTIONS] = {"FAILED_DIRECTIONS@cellToLocalIjk", 7, 7},
+    [H3VT_PENTAGON_ROTATIONS] = {"PENTAGON_ROTATIONS@cellToLocalIjk", 7, 7},
+    [H3VT_PENTAGON_ROTATIONS_REV] = {"PENTAGON_ROTATIONS_REVERSE@localIjkToCell", 7, 7},
+    [H3VT_PENTAGON_ROTATIONS_REV_POLAR] = {"PENTAGON_ROTATIONS_REVERSE_POLAR@localIjkToCell", 7, 7},
+    [H3VT_PENTAGON_ROTATIONS_REV_NONPOLAR] = {"PENTAGON_ROTATIONS_REVERSE_NONPOLAR@localIjkToCell", 7, 7},
+    [H3VT_FACE_IJK_BASE_CELLS] = {"faceIjkBaseCells@_faceIjkToBaseCell", 20, 27},
+    [H3VT_BASE_CELL_FACE_ROT] = {"faceIjkBaseCells@_baseCellToCCWrot60(baseCell,face)", 122, 20},
+    [H3VT_OVERAGE_QUADRANT] = {"faceNeighbors@_adjustOverageClassII", 20, 4},
+    [H3VT_OVERAGE_PENT_LEADING4] = {"pentLeading4@_adjustOverageClassII(face)", 20, 1},
+    [H3VT_OVERAGE_RES] = {"maxDimByCIIres@_adjustOverageClassII(res,substrate)", 17, 2},
+    [H3VT_ADJ_FACE_DIR_PENT] = {"adjacentFaceDir@_faceIjkPentToCellBoundary", 20, 20},
+    [H3VT_ADJ_FACE_DIR_HEX] = {"adjacentFaceDir@_faceIjkToCellBoundary", 20, 20},
+    [H3VT_PENT_DIRECTION_FACES] = {"pentagonDirectionFaces@vertexRotations(pentagon,digit*2+offHomeFace)", 12, 14},
+    [H3VT_VERTEX_NUM_FOR_DIRECTION] = {"directionToVertexNum@vertexNumForDirection(pent*7+dir,rotations)", 14, 6},
+    [H3VT_DIRECTION_FOR_VERTEX_NUM] = {"vertexNumToDirection@directionForVertexNum(pent*6+vertexNum,rotations)", 12, 6},
+};
+#define VT_MAXBYTES ((122 * 20 + 7) / 8)
+static unsigned char vt_bits[H3VT_COUNT][VT_MAXBYTES];
+static long vt_calls, vt_oob;
+static int vt_oob_t = -1, vt_oob_r, vt_oob_c;
+static char vt_oob_case[256];
+void h3VerifHit(int t, int row, int col) {
+    __atomic_fetch_add(&vt_calls, 1, __ATOMIC_RELAXED);
+    if (t < 0 || t >= H3VT_COUNT) return;
+    if (row < 0 || row >= VT[t].rows || col < 0 || col >= VT[t].cols) {
+        if (__atomic_fetch_add(&vt_oob, 1, __ATOMIC_RELAXED) == 0) {
+            vt_oob_t = t, vt_oob_r = row, vt_oob_c = col;
+            snprintf(vt_oob_case, sizeof vt_oob_case, "%s", vf_case_get());
+        }
+        return;
+    }
+    int c = row * VT[t].cols + col;
+    unsigned char m = (unsigned char)(1u << (c & 7));
+    if (!(vt_bits[t][c >> 3] & m)) __atomic_fetch_or(&vt_bits[t][c >> 3], m, __ATOMIC_RELAXED);
+}
+static void vt_dump(void) {
+    if (vt_oob) {
+        char d[512];
+        snprintf(d, sizeof d, "table index outside the table's dimensions: %s[%d][%d] (dimensions [%d][%d]); %ld such look-ups, first in case [%s]",
+                 VT[vt_oob_t].name, vt_oob_r, vt_oob_c, VT[vt_oob_t].rows, VT[vt_oob_t].cols, vt_oob, vt_oob_case);
+        vf_violation_spec(vt_oob_case, "table-index-oob", VT[vt_oob_t].name, vf_mix((uint64_t)vt_oob_t * 1000003 + (uint64_t)vt_oob_r * 1009 + (uint64_t)vt_oob_c), "", "%s", d);
+    }
+    if (!vt_calls) return;
+    for (int t = 0; t < H3VT_COUNT; t++) {
+        int n = VT[t].rows * VT[t].cols;
+        fprintf(VF.log, "{\"t\":\"bits\",\"k\":");
+        json_str(VF.log, VT[t].name);
+        fprintf(VF.log, ",\"rows\":%d,\"cols\":%d,\"hex\":\"", VT[t].rows, VT[t].cols);
+        for (int b = 0; b < (n + 7) / 8; b++) fprintf(VF.log, "%02x", vt_bits[t][b]);
+        fprintf(VF.log, "\"}\n");
+    }
+    fprintf(VF.log, "{\"t\":\"stat\",\"k\":\"tablehook.lookups\",\"v\":%ld}\n", vt_calls);
+}
+#else
+static void vt_dump(void) {}
+#endif
+
 /* ================================================================== main */
 static void dump_and_close(void) {
     vf_out_flush();
+    vt_dump();
     for (int i = 0; i < nctr; i++) {
         if (ctr[i].ismax) {
             if (ctr[i].m > -INFINITY) {
